@@ -17,6 +17,8 @@ def run(ctx):
         Part('filter_pair', 'corr_filters', 'run_pairs', [s, 300 if q else 6000], specs={'fp_common_token_spec'}),
         Part('filter_tables', 'corr_filters', 'run_tables', [s, 100 if q else 2000, ['prefix', 'position', 'overlap']],
              specs={'sound_spec'}),
+        Part('size_filter_tables', 'corr_filters', 'run_tables', [s + 1, 100 if q else 2000, ['size']], specs=set()),
+        Part('filter_pair_code', 'corr_pairgen', 'run', [s, 100 if q else 2000], count_exceptions=False),
         Part('index_code', 'corr_index', 'run', [s, 100 if q else 2000], count_exceptions=False),
         Part('refine', 'corr_meta', 'run_refine', [s, 250 if q else 4000]),
     ]
